@@ -14,7 +14,8 @@ EXTENDS FxSigma, FxViews, Json
 CONSTANTS Names,      \* atoms usable alone (and scaled)
           PairNames,  \* atoms usable in products of two
           Solo,       \* atoms used alone only (extreme parameter values whose products leave the 32-bit range)
-          Pool,       \* atoms usable in blocks / longer chains
+          Pool,       \* atoms usable in sums and in containers of one or two blocks
+          Pool3,      \* atoms usable in the three-slot templates (nested container, x @ y @ z)
           PoolBig,    \* atoms usable in the containers of six and seven blocks
           First,      \* atoms allowed in the first slot (the universe is sharded over it; all atoms = no restriction)
           Templates
@@ -30,7 +31,7 @@ Cont(kind, n) == [k |-> kind, sh |-> <<>>, dt |-> "", ch |-> [i \in 1..n |-> OpL
 Blk(kind, cont, ops) == Term(kind, 0, cont, <<>>, ops)
 
 NSlots(t) == CASE t = 1 -> 1 [] t \in {2, 3, 4, 6, 10, 11} -> 2 [] t = 5 -> 1 [] t = 7 -> 1 [] t \in {8, 9} -> 3
-SlotDomain(t) == IF t = 1 THEN Names \cup Solo ELSE IF t = 2 THEN PairNames ELSE IF t = 5 THEN Names ELSE IF t \in {10, 11} THEN PoolBig ELSE Pool
+SlotDomain(t) == IF t = 1 THEN Names \cup Solo ELSE IF t = 2 THEN PairNames ELSE IF t = 5 THEN Names ELSE IF t \in {10, 11} THEN PoolBig ELSE IF t \in {8, 9} THEN Pool3 ELSE Pool
 
 Assemble(t, c, b, x) ==
   CASE t = 1 -> x[1]
@@ -95,7 +96,7 @@ BuildRefused ==
        /\ subj' = Assemble(tpl, ck, bk, x) /\ phase' = "refused"
   /\ UNCHANGED <<tpl, ck, bk, mode, slots, den>>
 
-Next == (\E n \in Names \cup PairNames \cup Pool \cup PoolBig \cup Solo : Pick(n)) \/ Build \/ BuildRefused
+Next == (\E n \in Names \cup PairNames \cup Pool \cup Pool3 \cup PoolBig \cup Solo : Pick(n)) \/ Build \/ BuildRefused
 
 -----------------------------------------------------------------------------
 Done == phase = "done"
@@ -137,7 +138,10 @@ BlocksAreBlockMatrices ==
      /\ Transpose(subj).k = (CASE subj.k = "brow" -> "bcol" [] subj.k = "bcol" -> "brow" [] subj.k = "bdiag" -> "bdiag")
 
 EmitRefused == phase = "refused" =>
-  PrintT(<<"CASE", ToJson([names |-> <<ToString(tpl), ck, bk, "refused">> \o slots, term |-> subj, refused |-> TRUE])>>)
+  PrintT(<<"CASE", ToJson([names |-> <<ToString(tpl), ck, bk, "refused">> \o slots, term |-> subj, refused |-> TRUE,
+                           \* a near miss: the shared structures have the same leaves in the same order, only the tree differs
+                           near |-> IF bk = "brow" THEN Leaves(OutS(subj.ch[1])) = Leaves(OutS(subj.ch[2]))
+                                    ELSE Leaves(InS(subj.ch[1])) = Leaves(InS(subj.ch[2]))])>>)
 
 InvOrErr == IF InS(subj) = OutS(subj) \/ subj.k = "mvax" THEN Inverse(subj) ELSE ErrT
 Emit == Done =>
